@@ -263,6 +263,25 @@ func runC17(c *fw.Ctx) {
 		first := []any{nil, true, at.NewList(1), at.NewObject("a", 1)}[r.Intn(4)]
 		vals := append([]any{first}, c09Vals(r, r.Intn(6), 0)...)
 		l := at.NewList(vals...)
+		if r.Chance(1, 4) {
+			// the first element is the list itself, or a container that leads back to it (the library allows that)
+			l = at.NewList()
+			switch r.Intn(3) {
+			case 0:
+				l.Add(l, 2, 1)
+				vals = []any{"<the list itself>", 2, 1}
+			case 1:
+				o := at.NewObject("owner", l)
+				l.Add(o, "b", "a")
+				vals = []any{"<object whose field is the list>", "b", "a"}
+			default:
+				s := at.NewList(l)
+				l.Add(s, 3.5)
+				vals = []any{"<list holding the list>", 3.5}
+			}
+			c.Count("sort_reject_self_containing")
+			c.MarkInput("Sort on a list whose first element leads back to the list: " + fmt.Sprint(vals))
+		}
 		in := func() string { return "Sort on " + showVals17(vals) }
 		guard(c, in, func() {
 			before := top(l)
